@@ -86,7 +86,7 @@ def chunks(tier):
         out += [("F", n, me, pats, lo, min(lo + 16, len(masks))) for lo in range(0, len(masks), 16)]
     out += [("B", i, j) for i in range(3) for j in range(3)]
     out += [("BI", i) for i in range(3)]
-    out += [("D", "assoc"), ("D", "dissoc"), ("X",)]
+    out += [("D", "assoc"), ("D", "dissoc"), ("D", "trimer"), ("X",)]
     return out
 
 
@@ -420,27 +420,37 @@ def check_bimolecular(res, kf, kb, a, b, c, reversible, selfcheck=True):
 
 
 # ------------------------------------------------------------------------------------------------- layer D: dimerisation, reduced systems
-def check_dimer(res, direction, k, A0, N0):
-    """2 NO2 -> N2O4 (A' = -2 k A^2) or N2O4 -> 2 NO2 (first order), integrated as the full system and as the reduced
-    systems pyodesys builds from chempy's analytic eliminations (one concentration expressed through the invariants)"""
+SPELL = dict(
+    # the same reaction written with the repeated species split over several terms (coefficients add up, in any order)
+    assoc=("NO2", "N2O4", 2, ["2 NO2 -> N2O4", "NO2 + NO2 -> N2O4", "1 NO2 + 1 NO2 -> N2O4"]),
+    dissoc=("NO2", "N2O4", 2, ["N2O4 -> 2 NO2", "N2O4 -> NO2 + NO2"]),
+    trimer=("O", "O3", 3, ["O3 -> 3 O", "O3 -> O + 2 O", "O3 -> 2 O + O", "O3 -> O + O + O", "O3 -> 1 O + 2 O"]),
+)
+
+
+def check_dimer(res, direction, k, A0, N0, spell=0):
+    """2 NO2 -> N2O4 (A' = -2 k A^2), N2O4 -> 2 NO2 or O3 -> 3 O (first order), in every spelling of SPELL, integrated as the
+    full system and as the reduced systems pyodesys builds from chempy's analytic eliminations (one concentration
+    expressed through the invariants)"""
     from pyodesys.symbolic import PartiallySolvedSystem
 
-    text = ("2 NO2 -> N2O4; %r" if direction == "assoc" else "N2O4 -> 2 NO2; %r") % k
-    case = dict(layer="D", direction=direction, k=k, A0=A0, N0=N0)
+    mono, poly, m, texts = SPELL[direction]
+    text = "%s; %r" % (texts[spell], k)
+    case = dict(layer="D", direction=direction, k=k, A0=A0, N0=N0, spell=spell)
     what = "[%s]" % text
     res.states += 1
     res.nontrivial += 1
     res.transitions += 1
-    c0 = {"NO2": A0, "N2O4": N0}
+    c0 = {mono: A0, poly: N0}
     exact = []
     for t in TOUT:
         if direction == "assoc":
             A = A0 / (1 + 2 * k * t * A0) if A0 else 0.0
-            exact.append({"NO2": A, "N2O4": N0 + (A0 - A) / 2})
+            exact.append({mono: A, poly: N0 + (A0 - A) / 2})
         else:
             N = N0 * math.exp(-k * t)
-            exact.append({"NO2": A0 + 2 * (N0 - N), "N2O4": N})
-    upper = {"NO2": A0 + 2 * N0, "N2O4": N0 + A0 / 2}
+            exact.append({mono: A0 + m * (N0 - N), poly: N})
+    upper = {mono: A0 + m * N0, poly: N0 + A0 / m}
     res.evaluations += 1
     try:
         rsys, odesys, extra = _pipeline(text)
@@ -449,7 +459,7 @@ def check_dimer(res, direction, k, A0, N0):
         _viol(res, "C06|D|pipeline|raises", "%s: from_string/get_odesys raised %s: %s" % (what, type(e).__name__, e), case, "EXC %s" % type(e).__name__, None)
         return
     ok = True
-    for pref in (None, ["NO2"], ["N2O4"]):
+    for pref in (None, [mono], [poly]):
         label = "full system" if pref is None else "reduced system, %s eliminated" % pref[0]
         try:
             sys_ = odesys if pref is None else PartiallySolvedSystem(odesys, extra["linear_dependencies"](pref))
@@ -490,6 +500,59 @@ def check_rebuild(res, k1, k2):
         res.outcomes["X rebuild ok"] += 1
     except Exception as e:
         _viol(res, "C06|X-rebuild|pipeline|raises", "[%s] rebuilt with k=%r raised %s: %s" % (text, k2, type(e).__name__, e), case, "EXC %s" % type(e).__name__, None)
+
+
+MANUAL_MASKS = [273, 785, 3584, 265, 2457]  # chain, cycle, star out of the last isomer, reversible pair + step, mixed (n = 4)
+
+
+def check_manual_rhs(res, mask, p):
+    """the hand-assembled right-hand side (kinetics.ode.law_of_mass_action_rates -> dCdt_list on the parsed system) integrated
+    with scipy, before and after the substances of the SAME system object are re-ordered in place: every trajectory is
+    expm(K t) y0 in the substance order of the moment"""
+    import numpy as np
+    from scipy.integrate import solve_ivp
+    from scipy.linalg import expm
+    from chempy import ReactionSystem
+    from chempy.kinetics.ode import law_of_mass_action_rates, dCdt_list
+
+    n = 4
+    text, edges, ks, used = first_order_system(n, mask, p)
+    case = dict(layer="X", what="manual", mask=mask, p=p)
+    what = "first-order network [%s], hand-assembled rhs" % text.replace("\n", " | ")
+    res.states += 1
+    res.nontrivial += 1
+    res.transitions += 3
+    K = np.array(M.first_order_matrix(n, edges, ks))
+    y0full = np.array([1.0, 0.25, 0.5, 0.125])
+    try:
+        rsys = ReactionSystem.from_string(text)
+    except Exception as e:
+        _viol(res, "C06|X|manual-rhs|raises", "%s: from_string raised %s" % (what, type(e).__name__), case, "EXC %s" % type(e).__name__, None)
+        return
+    for step, action in enumerate((None, "reverse", "sort", "reverse")):
+        if action == "sort":
+            rsys.sort_substances_inplace()
+        elif action == "reverse":
+            rsys.sort_substances_inplace(key=lambda kv: [-ord(ch) for ch in kv[0]])
+        order = list(rsys.substances)
+        idx = [ISOMERS.index(s) for s in order]
+        res.evaluations += 1
+        try:
+            sol = solve_ivp(lambda t, y: list(dCdt_list(rsys, list(law_of_mass_action_rates(y, rsys)))), (0.0, 1.0), [y0full[i] for i in idx],
+                            method="LSODA", rtol=1e-11, atol=1e-13, t_eval=[0.1, 1.0])
+            got = [[float(v) for v in sol.y[:, j]] for j in range(2)]
+        except Exception as e:
+            _viol(res, "C06|X|manual-rhs|raises", "%s (substance order %s, step %d): %s: %s" % (what, order, step, type(e).__name__, e), case, "EXC %s" % type(e).__name__, None)
+            return
+        full = np.zeros(n)
+        for i in idx:
+            full[i] = y0full[i]
+        exact = [[float(expm(K * t).dot(full)[i]) for i in idx] for t in (0.1, 1.0)]
+        bad = [(g, e) for gr, er in zip(got, exact) for g, e in zip(gr, er) if abs(g - e) > 1e-7 * max(1.0, abs(e))]
+        res.outcomes["X manual rhs step %d: %s" % (step, "ok" if not bad else "WRONG")] += 1
+        if bad:
+            _viol(res, "C06|X|manual-rhs|differs-from-exact-solution", "%s with substances in the order %s (after %d in-place re-orderings): %r, exact %r" % (what, order, step, got, exact), case, got, exact)
+            return
 
 
 def check_contexts(res, ka, kb, order):
@@ -570,14 +633,19 @@ def run_chunk(chunk, tier):
         for k in (3e10, 1e8):
             for e0, oh0 in ((2e-7, 4e-5), (4e-5, 2e-7), (1e-6, 1e-6)):
                 check_unbounded_reactant(res, k, e0, oh0)
-        res.sample(dict(layer="X", slices=["rebuild after re-assigning a rate constant", "two customised parsing contexts", "reactant without elemental bound"]), limit=1)
+        for mask in MANUAL_MASKS:
+            for p in (0, 1):
+                check_manual_rhs(res, mask, p)
+        res.sample(dict(layer="X", slices=["hand-assembled rhs before/after in-place re-ordering of the substances", "rebuild after re-assigning a rate constant", "two customised parsing contexts", "reactant without elemental bound"]), limit=1)
     elif chunk[0] == "D":
         _, direction = chunk
         for k in (0.5, 3.0, 40.0):
             for A0, N0 in itertools.product((0.0, 0.3, 1.7), (0.0, 0.2, 1.0)):
                 if A0 or N0:
-                    check_dimer(res, direction, k, A0, N0)
-        res.sample(dict(layer="D", direction=direction, k=[0.5, 3.0, 40.0]), limit=1)
+                    for spell in range(len(SPELL[direction][3])):
+                        if spell == 0 or (k == 3.0 and (A0, N0) in ((0.3, 0.2), (0.0, 1.0), (1.7, 0.0))):
+                            check_dimer(res, direction, k, A0, N0, spell)
+        res.sample(dict(layer="D", direction=direction, k=[0.5, 3.0, 40.0], spellings=SPELL[direction][3]), limit=1)
     elif chunk[0] == "BI":
         _, i = chunk
         for a, b, c in itertools.product(AB, AB, CC):
@@ -592,12 +660,14 @@ def replay(case):
     if case["layer"] == "X":
         if case["what"] == "rebuild":
             check_rebuild(res, case["k1"], case["k2"])
+        elif case["what"] == "manual":
+            check_manual_rhs(res, case["mask"], case["p"])
         elif case["what"] == "contexts":
             check_contexts(res, case["ka"], case["kb"], case["order"])
         else:
             check_unbounded_reactant(res, case["k"], case["e0"], case["oh0"])
     elif case["layer"] == "D":
-        check_dimer(res, case["direction"], case["k"], case["A0"], case["N0"])
+        check_dimer(res, case["direction"], case["k"], case["A0"], case["N0"], case.get("spell", 0))
     elif case["layer"] == "F":
         check_first_order(res, case["n"], case["mask"], case["p"], case["limited"], only_y0=case.get("y0"))
     else:
